@@ -8,19 +8,29 @@
 
 using namespace pbt;
 
-static const size_t SIZES[] = {1, 2, 8, 24, 127, 128, 129, 256, 300};
+static const size_t SIZES[] = {1, 2, 8, 24, 127, 128, 129, 256, 300, 255, 257, 384, 512, 4096, 32767, 32768, 32772, 65536};
+static const int NSIZES = sizeof SIZES / sizeof SIZES[0];
 static const int NH = 8;
 
+// Comparator styles the header documents as legal for a min heap ("negative value or zero if a should come out
+// before b"): a three-way difference, a strict -1/0/1, and the boolean form `a > b` used by task_scheduler.c.
+static int g_cmp_style = 0;
 static int cmp_key(const void *a, const void *b) {
     unsigned char x = *(const unsigned char *)a, y = *(const unsigned char *)b;
-    return (int)x - (int)y;
+    switch (g_cmp_style) {
+    case 1: return x < y ? -1 : x > y ? 1 : 0;
+    case 2: return x > y;
+    case 3: return x > y ? 1000 : x < y ? -1000 : 0;
+    default: return (int)x - (int)y;
+    }
 }
 
 enum { PUSH, PUSH_REF, POP, TOP, REMOVE, CLEAR, SIZECAP, NKINDS };
 
 static Case gen_case() {
     Case c;
-    c.cfg = {pick(0, 8), pick(0, 1), pick(0, 12)};
+    // element size index (large sizes are rarer), dynamic/static, capacity, comparator style
+    c.cfg = {chance(94) ? pick(0, 12) : pick(13, NSIZES - 1), pick(0, 1), pick(0, 12), pick(0, 3)};
     c.ops = op_list(80, [] {
         switch (weighted({20, 30, 18, 6, 22, 2, 2})) {
         case 0: return mkop(PUSH, {pick(0, 5)});
@@ -45,7 +55,8 @@ static std::string make_elem(size_t S, unsigned key, uint32_t id) {
 
 static void run(const Case &c, Ctx &ctx) {
     galloc::reset();
-    size_t S = SIZES[c.c(0) % 9];
+    size_t S = SIZES[c.c(0) % NSIZES];
+    g_cmp_style = (int)(c.c(3) % 4);
     bool dynamic = c.c(1) % 2 == 0;
     size_t cap = dynamic ? c.c(2) % 9 : 1 + c.c(2) % 12;
 
@@ -88,7 +99,7 @@ static void run(const Case &c, Ctx &ctx) {
         // heap order under the comparator
         for (size_t i = 1; i < n; i++) {
             size_t p = (i - 1) / 2;
-            PBT_CHECK(cmp_key((char *)q.container.data + p * S, (char *)q.container.data + i * S) <= 0,
+            PBT_CHECK(*((unsigned char *)q.container.data + p * S) <= *((unsigned char *)q.container.data + i * S),
                       "after %s: heap order broken at %zu", after, i);
         }
         for (int i = 0; i < NH; i++) {
@@ -246,6 +257,8 @@ static void run(const Case &c, Ctx &ctx) {
     if (interesting_remove && (S > 128 || (any_handle_push && any_plain_push))) ctx.nontrivial = true;
     if (interesting_remove) ctx.tag("mid_heap_remove");
     if (S > 128) ctx.tag("elem_gt_128");
+    if (S >= 32768) ctx.tag("elem_ge_32768");
+    ctx.tag(g_cmp_style == 2 ? "comparator_boolean" : "comparator_three_way");
     if (!dynamic) ctx.tag("static");
 }
 
